@@ -327,7 +327,7 @@ pub fn run(run: &Run) {
     let envs: Vec<Eng> = (0..2).map(|v| Eng::new(rich_env(v))).collect();
     let seed = run.opts.seed;
 
-    let n = run.opts.size(60_000, 4_000_000);
+    let n = run.opts.size(240_000, 8_000_000);
     run.parallel("structures", n, |i, l| {
         let mut r = Rng::derive(seed, "c07-s", i);
         let eng = &envs[r.below(envs.len())];
@@ -384,7 +384,7 @@ pub fn run(run: &Run) {
         check_structure(run, l, "chains", i, eng0, &tree, seed);
     });
 
-    let n = run.opts.size(60_000, 4_000_000);
+    let n = run.opts.size(240_000, 8_000_000);
     run.parallel("mutations", n, |i, l| {
         let mut r = Rng::derive(seed, "c07-m", i);
         let eng = &envs[r.below(envs.len())];
@@ -398,6 +398,13 @@ pub fn run(run: &Run) {
         };
         if crate::refsem::type_filter(&eng.env, &mutant).is_err() {
             l.count("mutant_ill_typed");
+            return;
+        }
+        // a pair is "structurally different" in the sense of the statement when the
+        // canonical documents of the two structures differ (exchanging two operands
+        // that differ only in redundant parentheses, say, is not a structural change)
+        if canon::expr(&eng.env, &expr.clone().normalize()) == canon::expr(&eng.env, &mutant.clone().normalize()) {
+            l.count("mutation_not_structural");
             return;
         }
         let (ta, _) = render(eng, &expr, None, None, false);
